@@ -27,6 +27,7 @@ func runC01(c *core.Ctx) {
 	c.Clause("C01.3 only a counted quorum of success replies of the current election makes a leader")
 	h.leaderOnlyByMajority("C01.3 leader-by-majority")
 	h.candidateReleaseRetiresChannel("C01.3b stale-replies-not-counted")
+	h.failedConnNotReused("C01.3c failed-conn-not-reused")
 	c.Clause("C01.4 candidate persists (term+1, self) before requesting votes")
 	h.selfVoteBeforeCampaign("C01.4 self-vote-first")
 	c.Clause("C01.5 every site observing a higher term adopts it and steps down")
